@@ -424,6 +424,8 @@ def part_services_fault(ctx):
             probs.append(("partial-effect:service-prune-deleted-topics", "tables changed although the run failed: " + r.get("diff", "")))
         if not r["next_run_prunes"]:
             probs.append(("retry-failed:service-prune-deleted-topics", "the next, unfaulted run did not prune the topic and its snapshot"))
+        if r.get("writer_blocked"):
+            probs.append(("writer-blocked-after-failed-run:service-prune-deleted-topics", "the failed run did not end its transaction: " + r["writer_blocked"]))
         for key, what in probs:
             if key in seen:
                 continue
@@ -448,6 +450,36 @@ def part_c05_seek_revival(ctx):
     p.samples = [info["events"]]
     for v in info.get("violations") or []:
         p.violation(v.split(":")[0], v, dict(kind="c05-seek-revival", events=info["events"], model_witness="Bus/T_C05.v Module SeekRevival, theorem C05_seek_revival_refuted"))
+    return p
+
+
+def part_dead_letter_faults(ctx):
+    """C06: dead-lettering is ONE step also under storage faults: every statement of a pull / nack / sweep that
+    dead-letters fails in turn; the operation fails as a whole (nothing forwarded, nothing retired) or has the
+    model's full effect"""
+    p = Part("dead-letter-under-fault")
+    d = os.path.join(ctx["work"], "faultenum_c06")
+    rc, out = harness(["fault-enum", "-out", d, "-only", "dead-letter-sweep,pull-dead-lettering,nack-with-dead-letter"], timeout=1500)
+    if rc != 0:
+        p.violation("harness-failed", "fault enumeration failed: " + out[-1500:], dict(log=out[-3000:]), found_input=False)
+        return p
+    info = json.load(open(os.path.join(d, "faultenum.json")))
+    res = info["results"]
+    p.evaluations = len(res)
+    p.traces = len(res)
+    p.nontrivial = sum(1 for r in res if r["errored"])
+    p.info = dict(statements=info["statements_per_operation"], swallowed=sum(1 for r in res if r.get("swallowed")))
+    seen = set()
+    for r in res:
+        if "cancellation not delivered" in r["call"]:
+            continue
+        if not r["unchanged"] and not (r["only_heartbeat"] and r["scenario"].startswith("pull")):
+            key = "dead-letter-not-atomic-under-fault"
+            if key not in seen:
+                seen.add(key)
+                p.violation(key, "%s with statement %d/%d (%s, %s) failing: %s, and the tables changed: %s" %
+                            (r["scenario"], r["k"], r["of"], r["call"], r["mode"], "an error was reported" if r["errored"] else "NO error was reported", r.get("diff", "")),
+                            dict(kind="fault-enum", result=r))
     return p
 
 def part_c16(ctx):
@@ -943,7 +975,10 @@ def claim_c08e(kind, mm, st):
 def claim_c17(kind, mm):
     if "missing-delivery" in mm or "unexpected-delivery" in mm:
         return True      # what was configured (filter) is what is enforced
-    return kind.split(":")[0] in ("CreateSub", "GetSub", "UpdateSub", "ListSubs", "CreateTopic", "GetTopic", "UpdateTopic", "ModifyPush", "ListTopics") and \
+    k = kind.split(":")[0]
+    if k in ("SeekTime", "SeekSnap") and "d.expires" in mm:
+        return True      # the retention a seek gives back is the CONFIGURED message retention
+    return k in ("CreateSub", "GetSub", "UpdateSub", "ListSubs", "CreateTopic", "GetTopic", "UpdateTopic", "ModifyPush", "ListTopics") and \
         any(t in mm for t in ("MResp", "MSubs", "MTopics"))
 
 
@@ -969,7 +1004,9 @@ def claim_c07(kind, mm):
 
 
 def claim_c03(kind, mm):
-    return kind.split(":")[0] in ("Ack", "ModAck", "StreamAckNack")
+    k = kind.split(":")[0]
+    # (a seek rewinds ITS subscription only: an acknowledged delivery of another subscription that comes back is a C03 matter)
+    return k in ("Ack", "ModAck", "StreamAckNack") or (k in ("SeekTime", "SeekSnap") and "other-subscription" in mm)
 
 
 def claim_c12(kind, mm):
@@ -1013,7 +1050,7 @@ CHECKS = {
     "C06": dict(
         props=["C06", "Tie"],
         parts=[engine_part("delivery", 32, 600, 45, claim_c06, ["pull_deadlettered", "nack_deadlettered", "job_effective:DeadLetterSweep"]),
-               services_part(("DeadLetterSweep",), False)],
+               services_part(("DeadLetterSweep",), False), part_dead_letter_faults],
         rule="[+ background services part: the dead-letter service's first run = one model sweep step] engine profile delivery with dead-letter policies N in 1..4 and default, topologies from generated topics (no subscriber, several, filtered, ordered, deleted topic, self loop); "
              "non-trivial = deliveries dead-lettered by pull / nack / sweep",
         assumptions=BUS_ASSUME),
